@@ -108,6 +108,10 @@ func zzRefCodeResponse(seq uint64, errText string, reply []byte) []byte {
 // zzLenPick returns a field length from the bound's menu: small lengths 0..small and windows
 // around the varint boundary 127/128 (and, in the thorough tier, 16383/16384).
 func zzLenPick(name string) int {
+	if vParam("c07.b2m", 0) == 1 {
+		// the 3-to-4-byte varint boundary (directed: nothing else in the menu)
+		return []int{0, 2097151, 2097152}[vChoose(name, 3)]
+	}
 	small := vParam("c07.small", 2)
 	menu := []int{}
 	for i := 0; i <= small; i++ {
